@@ -60,6 +60,12 @@ var pool = []conf{
 	{"rx-foo-prefilter-on", hdr + "SecRxPreFilter On\nSecRule ARGS \"@rx ^foo\" \"id:1,phase:1,deny,status:403,capture\"\n", ""},
 	{"rx-foo-prefilter-off", hdr + "SecRxPreFilter Off\nSecRule ARGS \"@rx ^foo\" \"id:1,phase:1,deny,status:403,capture\"\n", ""},
 	{"nid-foo", hdr + "SecRule ARGS \"@validateNid cl foo\" \"id:1,phase:1,deny,status:403\"\n", ""},
+	// the same text split differently into phrases: two words vs one phrase containing a space
+	{"pm-two-words", hdr + "SecRule ARGS \"@pm a1 b2\" \"id:1,phase:1,deny,status:403\"\n", ""},
+	{"dataset-one-phrase-with-space", hdr + "SecDataset e `\na1 b2\n`\nSecRule ARGS \"@pmFromDataset e\" \"id:1,phase:1,deny,status:403\"\n", ""},
+	// the same selector expression, with an upper-case letter, on a case-folding collection and on the ARGS family
+	{"headers-regexkey-Foo", hdr + "SecRule REQUEST_HEADERS:/^Foo/ \"@rx x\" \"id:1,phase:1,deny,status:403\"\n", ""},
+	{"args-regexkey-Foo", hdr + "SecRule ARGS:/^Foo/ \"@rx x\" \"id:1,phase:1,deny,status:403\"\n", ""},
 }
 
 var requests = []scen.Req{
@@ -68,6 +74,10 @@ var requests = []scen.Req{
 	{URI: "/p?x=b2"},
 	{URI: "/p?foo=x&d=1"},
 	{URI: "/p?x=food"},
+	{URI: "/p?x=a1%20b2"},
+	{URI: "/p?foo-a=x"},
+	{URI: "/p?y=1", Headers: [][2]string{{"foo-h", "x"}}},
+	{URI: "/p?Foo-a=x", Headers: [][2]string{{"Foo-h", "x"}}},
 }
 
 func buildConf(c conf) (coraza.WAF, error) {
